@@ -14,7 +14,7 @@
    ranges `random` guarantees, so `... ds = Ok (out, ds')` ranges exactly over the possible runs. *)
 From Coq Require Import List ZArith NArith Bool.
 From DV Require Import Model.C11_GPTree Model.C11_PSet Proofs.C11_Tree Proofs.C11_Gen Proofs.C11_Ops Proofs.C11_Cx
-  Proofs.C11_PSet Proofs.C11_Safe Proofs.C11_Main.
+  Proofs.C11_PSet Proofs.C11_Safe Proofs.C11_Parse Proofs.C11_Main.
 Import ListNotations.
 Local Open Scope Z_scope.
 
@@ -32,6 +32,24 @@ Theorem C11_every_index_roots_a_subtree : forall t i, (i < length (flatten t))%n
   exists c u, t = plug c u /\ length (cpre c) = i.
 Proof. exact every_index_roots_a_subtree. Qed.
 Print Assumptions C11_every_index_roots_a_subtree.
+
+(* that subtree is unique *)
+Theorem C11_subtree_at_unique : forall c u c' u',
+  wft (plug c u) -> plug c u = plug c' u' -> length (cpre c) = length (cpre c') -> u = u'.
+Proof. exact subtree_at_unique. Qed.
+Print Assumptions C11_subtree_at_unique.
+
+(* the vocabulary is decidable: `complete` / `wt_list` (Model/C11_Spec.v, evaluated by the correspondence
+   runner against the harness's independent checker) decide "complete prefix expression" and
+   "well typed at e" *)
+Theorem C11_complete_iff : forall l, complete l = true <-> exists t, wft t /\ l = flatten t.
+Proof. exact complete_iff. Qed.
+Print Assumptions C11_complete_iff.
+
+Theorem C11_wt_list_iff : forall sub e l,
+  wt_list sub e l = true <-> exists t, l = flatten t /\ typed sub e t.
+Proof. exact wt_list_iff. Qed.
+Print Assumptions C11_wt_list_iff.
 
 (* ---- reported height = depth of the deepest node ---- *)
 Theorem C11_height_is_depth : forall t, wft t ->
